@@ -221,22 +221,29 @@ def gauss_stage_pairs(run, n):
 def outlier_stream(run, n):
     """default outlier models on: the count of a blocklisted reporting unit must not change which other units are flagged"""
     rng = run.rng
-    for _ in range(n):
-        case = A.gen_case(rng, pi_method="nonparametric", size="medium", roles=["reporting"] * 9 + ["partial", "blocklisted"],
-                          min_reporting=26)
+    for k_ in range(n):
+        # every third pair: the margin outlier model of a bootstrap run, limits configured so wide (a negative lower limit is a valid
+        # setting) that only the explicit rules keep a reporting zero-baseline unit out of the fit
+        zb = k_ % 3 == 1
+        role = "zero-baseline" if zb else "blocklisted"
+        case = A.gen_case(rng, pi_method="bootstrap" if zb else "nonparametric", size="medium",
+                          roles=["reporting"] * 9 + ["partial", role], min_reporting=26, district=False)
         case["params"] = dict(case["params"], fit_turnout_outlier_model=True, fit_margin_outlier_model=True)
+        if zb:
+            case["params"].update(turnout_factor_lower=-1, turnout_factor_upper=50)
+            case["tf_lo"], case["tf_hi"] = -1, 50
         if "unit" not in case["aggregates"]:
             case["aggregates"] = case["aggregates"] + ["unit"]
         e = case["election"]
-        ids = [u for u, r in e.roles.items() if r == "blocklisted" and u in set(e.cur["geographic_unit_fips"])
+        ids = [u for u, r in e.roles.items() if r == role and u in set(e.cur["geographic_unit_fips"])
                and float(e.cur.loc[e.cur["geographic_unit_fips"] == u, "percent_expected_vote"].iloc[0]) >= e.threshold]
         if not ids:
             continue
         uid = rng.choice(ids)
-        caseB, mode = perturb(rng, case, uid, "blocklisted")
+        caseB, mode = perturb(rng, case, uid, role)
         ra, rb = A.run_case(case), A.run_case(caseB)
         L = A.light(case)
-        L.update({"perturbed_unit": uid, "kind": "blocklisted (outlier models on)", "replacement": mode})
+        L.update({"perturbed_unit": uid, "kind": role + " (outlier models on)", "replacement": mode})
         run.case(L, True)
         run.count("outlier stream")
         if "raises" in ra or "raises" in rb:
@@ -244,8 +251,8 @@ def outlier_stream(run, n):
         d = P.diff_tables({"unit_data": ra["tables"]["unit_data"]}, {"unit_data": rb["tables"]["unit_data"]},
                           ignore_rows={"unit_data": lambda k: k[-1] == uid})
         if d:
-            run.violation("with the outlier-detection models on, the count of a blocklisted unit changes other units' rows (the outlier "
-                          "model is fitted before blocklisted units are removed)", input=L, impl=[str(x) for x in d[0]],
+            run.violation("with the outlier-detection models on, the count of a blocklisted / zero-baseline unit changes other units' rows (the "
+                          "outlier model is fitted before such units are removed)", input=L, impl=[str(x) for x in d[0]],
                           predicate="rep_invariant", signature="C10:outlier-leak", replay_case=A.case_json(caseB), base_case=A.case_json(case))
 
 
